@@ -2,6 +2,7 @@
 package c13
 
 import (
+	"context"
 	"database/sql"
 	"fmt"
 	"os"
@@ -384,16 +385,21 @@ func oracle(c *Case) (facts, error) {
 			badText := "no_such_column_zz = $1"
 			fire := func(n int) error {
 				for i := 0; i < n; i++ {
+					ctx, cancel := context.WithTimeout(context.Background(), 20*time.Second)
 					err := fix.Safe(func() error {
-						r, e := gdb.Query(badText, val)
+						r, e := gdb.QueryContext(ctx, badText, val)
 						if e == nil {
 							r.Close()
 							return nil
 						}
 						return e
 					})
+					cancel()
 					if err == nil {
 						return fmt.Errorf("query %+q via grpc on an unknown column returned rows", badText)
+					}
+					if ctx.Err() != nil || strings.Contains(err.Error(), "DeadlineExceeded") {
+						return fmt.Errorf("rejected query %d through the grpc database handle: no answer within 20 s (the server, alive=%v, no longer answers after failing queries): %v", i, srv.Alive(), err)
 					}
 					if fix.IsPanic(err) {
 						return err
